@@ -274,7 +274,7 @@ def run(ctx, R):
     # TLV iteration bound
     from rules import C11
     C11.run(ctx, R, parts=('R',))
-    if ctx.tier == 'thorough' and ctx.fx_rel is not None:
+    if ctx.fx_rel is not None:
         import runner
         ctx2 = runner.Ctx(ctx.fx_rel, R, ctx.tier)
         R.inst('C03.O', 'release-config', ctx.fx_rel.raw.get('overflow_checks') is False, expected='overflow checks off', found=str(ctx.fx_rel.raw.get('overflow_checks')), nontrivial=False)
